@@ -108,6 +108,23 @@ def strip_comments(src):
     return ''.join(out)
 
 
+def import_closure(mods):
+    """source files of the project's own modules transitively imported by `mods`"""
+    seen = {}
+    todo = list(mods)
+    while todo:
+        m = todo.pop()
+        if m in seen:
+            continue
+        path = os.path.join(LEAN, *m.split('.')) + '.lean'
+        if not os.path.exists(path):
+            continue
+        seen[m] = path
+        for im in re.findall(r'^import\s+(Ruint\.[A-Za-z0-9_.]+)', open(path).read(), re.M):
+            todo.append(im)
+    return sorted(seen.values())
+
+
 def audit(prop, extra_modules=()):
     """#print axioms for every property theorem; grep sources for forbidden constructs."""
     names = theorem_names(prop)
@@ -132,13 +149,10 @@ def audit(prop, extra_modules=()):
             bad[n] = 'axioms ' + ','.join(sorted(res[n] - ALLOWED_AXIOMS))
     # forbidden constructs anywhere in the Lean sources
     hits = []
-    for dp, dn, fn in os.walk(os.path.join(LEAN, 'Ruint')):
-        for x in fn:
-            if x.endswith('.lean'):
-                p = os.path.join(dp, x)
-                for k, line in enumerate(strip_comments(open(p).read()).split('\n')):
-                    if FORBIDDEN.search(line):
-                        hits.append('%s:%d: %s' % (os.path.relpath(p, LEAN), k + 1, line.strip()[:80]))
+    for p in import_closure(['Ruint.Props.' + prop, 'Ruint.Drv.' + prop]):
+        for k, line in enumerate(strip_comments(open(p).read()).split('\n')):
+            if FORBIDDEN.search(line):
+                hits.append('%s:%d: %s' % (os.path.relpath(p, LEAN), k + 1, line.strip()[:80]))
     axioms_used = sorted(set().union(*res.values())) if res else []
     return names, bad, hits, axioms_used, rc, text
 
